@@ -121,6 +121,8 @@ def pred(case):
             return pred_alias(case)
         if it in ('tdotx', 'coords', 'signedm', 'pvr', 'fitplane'):
             return pred_forms(case)
+        if it == 'seqarg':
+            return pred_seq(case)
         if it == 'jsum':
             s, a, b = case['s'], case['alpha'], case['beta']
             x = np.asarray(case['x'], dtype=float)
@@ -398,6 +400,248 @@ def alias_cases(rng, count):
         i += 1
     return out
 
+
+
+# ------------------------------------------------------------------------------------------------
+# container forms of every sequence argument (list / tuple / ndarray / one-shot iterables / views)
+# ------------------------------------------------------------------------------------------------
+SEQ_FORMS = ['list', 'tuple', 'ndarray', 'gen', 'iter', 'map', 'zip', 'dictvalues', 'dictkeys', 'deque', 'chain', 'reversed', 'range']
+SEQ_ONE_SHOT = ('gen', 'iter', 'map', 'zip', 'chain', 'reversed')
+# (routine.argument, what the docstring calls the argument): forms beyond list / tuple / ndarray are demanded only for arguments
+# documented as "iterable" / "sequence"
+SEQ_ARGS = ['jsum.s', 'qbfs.cs', 'q2dalphas.cns', 'cobqbfs.cs', 'cobq2d.cns', 'zzqbfs.coefs', 'zzqcon.coefs', 'zzq2d.cm0', 'zzq2d.ams',
+            'zzq2d.bms', 'zzq2d.ams-inner', 'zzq2d.bms-inner', 'zzq2d.all', 'pack.nms', 'pack.coefs', 'pack.both', 'pack.rows',
+            'tdot.modes', 'tdot.weights', 'tdot.both', 'lstsq.modes']
+SEQ_DOCUMENTED_ARRAY_ONLY = {'tdot.weights': ('list', 'tuple', 'ndarray')}
+
+
+def _hashable_rows(vals):
+    return [tuple(v) if isinstance(v, (list, tuple)) else v for v in vals]
+
+
+def seq_form_applies(vals, form):
+    """can this list of values be presented in this container form at all?"""
+    vals = _hashable_rows(vals)
+    if form == 'zip':
+        return len(vals) > 0 and all(isinstance(v, tuple) and len(v) == 2 for v in vals)
+    if form == 'dictkeys':
+        try:
+            return len(set(vals)) == len(vals)
+        except TypeError:
+            return False
+    if form == 'range':
+        return len(vals) > 0 and all(isinstance(v, int) for v in vals) and vals == list(range(vals[0], vals[0] + len(vals)))
+    if form == 'ndarray':
+        try:
+            return np.array(vals).dtype != object
+        except ValueError:
+            return False
+    return True
+
+
+def as_container(vals, form):
+    """the same items, in order, inside another kind of container; one-shot forms can be traversed once only"""
+    import collections
+    vals = list(vals)
+    if form != 'ndarray':
+        vals = _hashable_rows(vals)
+    if not seq_form_applies(vals, form):
+        raise C.ToolError(f'container form {form} does not apply to {vals!r}')
+    if form == 'list':
+        return list(vals)
+    if form == 'tuple':
+        return tuple(vals)
+    if form == 'ndarray':
+        return np.array(vals)
+    if form == 'gen':
+        return (v for v in vals)
+    if form == 'iter':
+        return iter(vals)
+    if form == 'map':
+        return map(lambda v: v, vals)
+    if form == 'zip':
+        return zip([v[0] for v in vals], [v[1] for v in vals])
+    if form == 'dictvalues':
+        return dict(enumerate(vals)).values()
+    if form == 'dictkeys':
+        return {v: None for v in vals}.keys()
+    if form == 'deque':
+        return collections.deque(vals)
+    if form == 'chain':
+        return itertools.chain(vals[:1], vals[1:])
+    if form == 'reversed':
+        return reversed(vals[::-1])
+    if form == 'range':
+        return range(vals[0], vals[0] + len(vals))
+    raise C.ToolError(form)
+
+
+def nested(r):
+    """results as nested lists of complex numbers (tuples / lists / arrays alike)"""
+    if isinstance(r, (list, tuple)):
+        return [nested(q) for q in r]
+    if r is None:
+        return None
+    return np.asarray(r, dtype=complex).tolist()
+
+
+def same_nested(a, b, tol=1e-12):
+    if isinstance(a, list) or isinstance(b, list):
+        return isinstance(a, list) and isinstance(b, list) and len(a) == len(b) and all(same_nested(p, q, tol) for p, q in zip(a, b))
+    if a is None or b is None:
+        return a is None and b is None
+    if not (np.isfinite(a) and np.isfinite(b)):
+        return False
+    return abs(a - b) <= tol * max(1.0, abs(b))
+
+
+def seq_modes(case):
+    k = case['k']
+    base = np.arange(k * 12, dtype=float).reshape(k, 3, 4)
+    return [np.cos(0.37 * base[i] + i) + 0.1 * i for i in range(k)]
+
+
+def seq_call(case, P, qp, J):
+    """W -> result of the routine with W applied to the designated sequence argument(s)"""
+    rt = case['routine']
+    cs, cs2, m, a, b = case['cs'], case['cs2'], case['m'], case['alpha'], case['beta']
+    x = np.array(case['pts'], dtype=float)
+    u = np.array(case['upts'], dtype=float)
+    t = np.array(case['tpts'], dtype=float)
+    ams, bms = case['ams'], case['bms']
+    nms, coefs = case['nms'], case['coefs']
+    if rt == 'jsum.s':
+        return lambda W: J.jacobi_sum_clenshaw(W(cs), a, b, x)
+    if rt == 'qbfs.cs':
+        return lambda W: qp.clenshaw_qbfs(W(cs), u * u)
+    if rt == 'q2dalphas.cns':
+        return lambda W: qp.clenshaw_q2d(W(cs), m, u * u)
+    if rt == 'cobqbfs.cs':
+        return lambda W: qp.change_basis_Qbfs_to_Pn(W(cs))
+    if rt == 'cobq2d.cns':
+        return lambda W: qp.change_of_basis_Q2d_to_Pnm(W(cs), m)
+    if rt == 'zzqbfs.coefs':
+        return lambda W: qp.compute_z_zprime_Qbfs(W(cs), u, u * u)
+    if rt == 'zzqcon.coefs':
+        return lambda W: qp.compute_z_zprime_Qcon(W(cs), u, u * u)
+    if rt == 'zzq2d.cm0':
+        return lambda W: qp.compute_z_zprime_Q2d(W(cs), ams, bms, u, t)
+    if rt == 'zzq2d.ams':
+        return lambda W: qp.compute_z_zprime_Q2d(cs, W(ams), bms, u, t)
+    if rt == 'zzq2d.bms':
+        return lambda W: qp.compute_z_zprime_Q2d(cs, ams, W(bms), u, t)
+    if rt == 'zzq2d.ams-inner':
+        return lambda W: qp.compute_z_zprime_Q2d(cs, [W(q) for q in ams], bms, u, t)
+    if rt == 'zzq2d.bms-inner':
+        return lambda W: qp.compute_z_zprime_Q2d(cs, ams, [W(q) for q in bms], u, t)
+    if rt == 'zzq2d.all':
+        return lambda W: qp.compute_z_zprime_Q2d(W(cs), W([W(q) for q in ams]), W([W(q) for q in bms]), u, t)
+    if rt == 'pack.nms':
+        return lambda W: qp.Q2d_nm_c_to_a_b(W(nms), coefs)
+    if rt == 'pack.coefs':
+        return lambda W: qp.Q2d_nm_c_to_a_b([tuple(q) for q in nms], W(coefs))
+    if rt == 'pack.both':
+        return lambda W: qp.Q2d_nm_c_to_a_b(W(nms), W(coefs))
+    if rt == 'pack.rows':
+        return lambda W: qp.Q2d_nm_c_to_a_b([W(q) for q in nms], coefs)
+    w = case['w']
+    if rt == 'tdot.modes':
+        return lambda W: P.sum_of_2d_modes(W(seq_modes(case)), w)
+    if rt == 'tdot.weights':
+        return lambda W: P.sum_of_2d_modes(seq_modes(case), W(w))
+    if rt == 'tdot.both':
+        return lambda W: P.sum_of_2d_modes(W(seq_modes(case)), np.array(w))
+    if rt == 'lstsq.modes':
+        data = sum(wk * mk for wk, mk in zip(w, seq_modes(case)))
+        return lambda W: P.lstsq(W(seq_modes(case)), data)
+    raise C.ToolError(rt)
+
+
+def seq_values(case):
+    """the list the form is applied to (decides whether a form applies)"""
+    rt = case['routine']
+    if rt in ('zzq2d.ams', 'zzq2d.ams-inner'):
+        return case['ams'] if rt == 'zzq2d.ams' else case['ams'][0]
+    if rt in ('zzq2d.bms', 'zzq2d.bms-inner'):
+        return case['bms'] if rt == 'zzq2d.bms' else case['bms'][0]
+    if rt in ('pack.nms', 'pack.both'):
+        return case['nms']
+    if rt == 'pack.coefs':
+        return case['coefs']
+    if rt == 'pack.rows':
+        return case['nms'][0]
+    if rt in ('tdot.modes', 'tdot.both', 'lstsq.modes'):
+        return [0.5 + i for i in range(case['k'])]        # stands for the k arrays (any form but zip / range / dictkeys of arrays)
+    if rt == 'tdot.weights':
+        return case['w']
+    return case['cs']
+
+
+def pred_seq(case, call=None):
+    """a sequence argument given as a tuple, an array, a generator, an iterator, a zip / map object, a dictionary view, a deque ...
+    must give what the same items give as a list (one call per container: one-shot forms cannot be re-read)"""
+    P, qp, J = _impl()
+    fn = (call or seq_call)(case, P, qp, J)
+    form = case['form']
+    exp = nested(fn(lambda v: as_container(v, 'list')))
+
+    def W(v):
+        if form in ('dictkeys', 'range', 'zip', 'ndarray') and not seq_form_applies(list(v), form):
+            return as_container(v, 'gen' if form != 'ndarray' else 'tuple')   # nested use on items the form cannot hold
+        return as_container(v, form)
+    try:
+        got = nested(fn(W))
+    except C.ToolError:
+        raise
+    except Exception as ex:
+        return False, (f'{case["routine"]} given as {form} raised {type(ex).__name__}: {ex}; as a list it returns '
+                       f'{str(exp)[:120]}')
+    if not same_nested(got, exp):
+        return False, f'{case["routine"]} given as {form} returns {str(got)[:160]}; the same items as a list give {str(exp)[:160]}'
+    return True, ''
+
+
+def seq_random(rng, i):
+    n = int(rng.integers(1, 7))
+    cs = [float(int(v)) / 2 + 0.125 * k for k, v in enumerate(rng.integers(-6, 7, n))]       # distinct values
+    a, b = AB[i % len(AB)]
+    na, nb = int(rng.integers(1, 4)), int(rng.integers(1, 4))
+    ln = int(rng.integers(1, 5))
+    k = int(rng.integers(5, 10))
+    nms, seen = [], set()
+    while len(nms) < k:
+        q = (int(rng.integers(0, 5)), int(rng.integers(-4, 5)))
+        if q not in seen:
+            seen.add(q)
+            nms.append(list(q))
+    if not any(q[1] != 0 for q in nms):
+        nms[-1] = [1, 3]
+    km = int(rng.integers(2, 5))
+    return {'cs': cs, 'cs2': cs[::-1], 'm': 1 + i % 3, 'alpha': a, 'beta': b,
+            'ams': [[float(int(v)) / 4 + 0.01 * (r_ * 7 + c_) for c_, v in enumerate(rng.integers(-8, 9, ln))] for r_ in range(na)],
+            'bms': [[float(int(v)) / 4 + 0.01 * (r_ * 5 + c_) for c_, v in enumerate(rng.integers(-8, 9, ln))] for r_ in range(nb)],
+            'nms': nms, 'coefs': [float(int(v)) / 8 + 0.001 * j for j, v in enumerate(rng.integers(1, 40, k))],
+            'k': km, 'w': [float(int(v)) / 4 + 0.03 * j for j, v in enumerate(rng.integers(-8, 9, km))],
+            'pts': [float(v) for v in rng.uniform(-0.9, 0.9, 3)], 'upts': [float(v) for v in rng.uniform(0.05, 0.95, 3)],
+            'tpts': [float(v) for v in rng.uniform(0, 6, 3)]}
+
+
+def seq_cases(rng, reps, args=None, values=None, extra=None):
+    """every (routine.argument, container form) pair that applies, `reps` random contents each"""
+    out = []
+    i = 0
+    for rt in (args or SEQ_ARGS):
+        for form in SEQ_FORMS:
+            if form not in SEQ_DOCUMENTED_ARRAY_ONLY.get(rt, SEQ_FORMS):
+                continue
+            for _ in range(reps):
+                case = dict(seq_random(rng, i), item='seqarg', routine=rt, form=form)
+                if extra:
+                    case.update(extra(rng, i, rt))
+                i += 1
+                if seq_form_applies((values or seq_values)(case), form):
+                    out.append(case)
+    return out
 
 
 # ------------------------------------------------------------------------------------------------
@@ -1006,6 +1250,12 @@ def correspondence(ctx):
         ok, detail = pred(case)
         if not ok:
             ctx.pred_fail(case['item'], case, detail)
+    # ------------------------------------------------ every sequence argument in every container form
+    for case in seq_cases(rng, ctx.scale(2, 12)):
+        ctx.case('seqarg', case, nontrivial=True, tag=f'{case["routine"]}/{case["form"]}')
+        ok, detail = pred(case)
+        if not ok:
+            ctx.pred_fail('seqarg', case, detail)
     for n_ in ((33, 48) if not ctx.thorough else (33, 48, 65, 96)):
         for ti in range(ctx.scale(2, 5)):
             terms = sorted(int(v) for v in rng.choice(np.arange(1, 37), size=6, replace=False))
@@ -1238,7 +1488,11 @@ MANIFEST_ENTRY = {
              'float32, float64) coefficients evaluated twice on the same objects; float64 / float32 / int / 0-d / 2-D / 3-D / strided '
              'coordinates and Python / NumPy scalars; signed m; modes of dtype f64 / f32 / i64 / bool / c128 with weights f64 / f32 / i64 / '
              'c128 / list, mismatched lengths must raise; lstsq with C / F / transposed / strided / reversed layouts of data and modes, 1-D '
-             'data, modes as list, one-row and one-column grids, +-inf and NaN masks, poisoned modes at masked samples.'),
+             'data, modes as list, one-row and one-column grids, +-inf and NaN masks, poisoned modes at masked samples; every sequence '
+             'argument (s, cs, cns, coefs, cm0, ams, bms and their inner lists, nms and its rows, coefs of the packer, modes of '
+             'sum_of_2d_modes and lstsq; weights as list / tuple / ndarray only, as documented) as list / tuple / ndarray / generator / '
+             'iterator / map / zip / chain / reversed / dict views / deque, result = result for the same items as a list (item seqarg); '
+             'gen_iterable_arguments: translated fact that these arguments are materialised first or read exactly once.'),
     'note': ('partial in this sense: the link "Python loop with these bounds fills exactly these entries" is checked by execution, not '
              'proved; np.linalg.lstsq and np.tensordot are trusted; the exact oracle is validated per reply, not proved; the value '
              'routines are compared, not translated; f/g/h (square roots, factorials) are parameters of the theorems and numbers taken '
